@@ -702,6 +702,18 @@ pub fn script_runs(out: &mut Out, path: &str) {
             if !h.alive() {
                 break;
             }
+            // macro letter: fragment a tree (one base frame allocated in every row), so that its counter
+            // stays high while no block of order >= 6 is free
+            if l[0] == "frag" {
+                let t = sym(&l[1]);
+                for r in 0..(TF / 64) {
+                    let f = t * TF + r * 64 + 1;
+                    if f < h.w.frames && h.alive() {
+                        h.step(&Op::Get(0, 0, None, Some(f)));
+                    }
+                }
+                continue;
+            }
             if let Some(op) = h.resolve_letter(l) {
                 h.step(&op);
             }
